@@ -113,4 +113,34 @@ example : isMutation "keyvalue" "key" "post" = true ∧ isMutation "roi" "ptquer
 /-- the repaired shape of DeleteConflicts is present: conflict deletions of a resolve go into extension nodes, never into a committed parent -/
 theorem repaired_shape_present : Gen.resolveKeepsCommittedParents = true := by decide
 
+/-! ### ROI reads and the unversioned z extents
+
+An ROI instance keeps `MinZ`/`MaxZ` as instance-wide properties that every POST at any version resets.  A read at
+a committed version may therefore not depend on them.  Which range the full-ROI readers scan and where the
+partition takes its z range from are regenerated from datatype/roi/roi.go. -/
+
+/-- the full-ROI read at a version: the spans (block z, rest) stored at it, restricted to the z extents when
+    the reader scans only those -/
+def roiSpans (scansAll : Bool) (ext : Int × Int) (stored : List (Int × Nat)) : List (Int × Nat) :=
+  if scansAll then stored else stored.filter (fun s => decide (ext.1 ≤ s.1 ∧ s.1 ≤ ext.2))
+
+/-- the z range a partition is laid out over -/
+def roiZRange (fromVersion : Bool) (ext : Int × Int) (stored : List (Int × Nat)) : Int × Int :=
+  if fromVersion then (stored.foldl (fun m s => min m s.1) 2147483647, stored.foldl (fun m s => max m s.1) (-2147483648))
+  else ext
+
+/-- GET roi / ptquery and GET partition at a version are the same whatever later POSTs at other versions made of
+    the instance-wide extents -/
+theorem roi_reads_ignore_unversioned_extents (e1 e2 : Int × Int) (stored : List (Int × Nat)) :
+    roiSpans Gen.roiGetSpansScansAll e1 stored = roiSpans Gen.roiGetSpansScansAll e2 stored ∧
+    roiZRange Gen.roiPartitionUsesVersionExtents e1 stored = roiZRange Gen.roiPartitionUsesVersionExtents e2 stored := by
+  have h1 : Gen.roiGetSpansScansAll = true := by decide
+  have h2 : Gen.roiPartitionUsesVersionExtents = true := by decide
+  rw [h1, h2]; exact ⟨rfl, rfl⟩
+
+/-- the other shapes do depend on them: a narrower later ROI hides committed spans (seeded change C02-6) and moves
+    the partition (the defect fixed in e8af9f5) -/
+example : roiSpans false (1, 2) [(0, 7), (1, 7), (3, 7)] ≠ roiSpans false (0, 3) [(0, 7), (1, 7), (3, 7)] ∧
+    roiZRange false (1, 2) [(0, 7)] ≠ roiZRange false (0, 3) [(0, 7)] := by decide
+
 end Dvid.Props.C02
